@@ -212,6 +212,11 @@ def run(ck):
         n = rng.choice([1, 2, 3, 4, 5, 7, 10, 16, 25, 60, 200]) if rng.random() < .3 else rng.randint(1, 24)
         p1, p2 = rand_pt(rng), rand_pt(rng)
         L = math.dist(p1, p2)
+        if i % 25 == 7:
+            # an end point a hair above or below the plane z = 0 (in free space that plane is nothing special)
+            e = rng.choice([p1, p2])
+            e[2] = rng.choice([-1, 1]) * L / n * 10 ** rng.uniform(-6, -3.2)
+            L = math.dist(p1, p2)
         segtype = rng.choice([0, 1, 2, 3, 3])
         r = L / n / rng.choice([5, 10, 50, 200, 1000])
         tmin = rng.choice([None, None, L / n * rng.uniform(0.01, 1.1)])
